@@ -37,12 +37,16 @@
       resolves that statement to.
   Symbolic links (`.resolve()` is a parameter `rv` of the model; every theorem is for every `rv`):
     * `tieA_resolve_site`: `find_module_in_path` resolves the search directory and nothing else,
-      `Import.origin` resolves the whole path; who enters which;
+      `Import.origin` resolves the whole path; every file — target, followed import, star-imported
+      file (since 58a9012) — is entered under its path as spelled below the search root;
     * `C13_origin_below_search_dir`, `C13_located_roundtrip`: the located origin is the resolved search
-      directory followed by the path as spelled, and the file entered under it gets its name back;
+      directory followed by the path as spelled, and the file entered under it gets its name back
+      (whatever its components are called: `tieA_path_name_rule`, `C13_package_named_py`, c729543);
     * `walk_followed_cur_is_origin`, `walk_call_base_is_cur_name`; `walk_cur_is_file` and what rests
-      on it assume `Walk.LinkFree` — (d) `C13_cex_star_symlink`: the star-expansion enters a
-      star-imported file under its FULLY resolved path (known finding).
+      on it hold for every project, links included (`C13_star_symlink`);
+    * the rules the two repairs replaced are kept as `Walk.runBefore_58a9012` /
+      `longestNameBefore_c729543` with their counterexamples (`C13_cex_star_symlink_before_58a9012`,
+      `walk_cex_not_spelled_before_58a9012`, `C13_cex_package_named_py_before_c729543`).
 -/
 import RattrModel.Locator
 import RattrModel.Spec.ResolveName
@@ -99,23 +103,41 @@ private def probeModel : List (String × Path) :=
    ("L:lmod", probeAt [pL] ["lmod".toList]), ("L:mod", probeAt [pL] ["mod".toList])]
 
 /-- Where `.resolve()` is applied: inside `find_module_in_path` to the search directory and to
-nothing else (the location is returned as built); once more, to the whole path, inside `Import.origin`;
-`parse_and_analyse_imports` enters `spec.origin`, `expand_starred_imports` enters `starred.origin`
-(an `Import.origin`) to compile the star-imported file — and, since 150f7d8, the file the starred import
-is written in (`starred.location.defined_in`) around its two `error.error` calls, which compile
-nothing and resolve nothing (`Walk.expandLoop` records those diagnostics by line). And the real function, run on a directory with a symlinked package, a symlinked
-module file and through a symlinked spelling of the directory, returns what the model returns. -/
+nothing else (the location is returned as built); once more, to the whole path, inside `Import.origin`.
+What is ENTERED (`enter_file`), and whether a root context is compiled under it: the target as given,
+`spec.origin` for a followed import, and — since 58a9012 — `Path(starred.module_spec.origin)`, the
+same unresolved origin, for a star-imported file (`Walk.run` = `Walk.runWith … (curOf true)`); the
+block entered under `starred.location.defined_in` (150f7d8) only words two diagnostics. And the real
+function, run on a directory with a symlinked package, a symlinked module file and through a
+symlinked spelling of the directory, returns what the model returns. -/
 theorem tieA_resolve_site :
     Generated.C13.findResolvingCalls = ["python_path.resolve"]
     ∧ Generated.C13.findReturns = ["None", "None", "install_location"]
     ∧ Generated.C13.importOriginResolvingCalls = ["Path(self.module_spec.origin).resolve"]
     ∧ Generated.C13.enterFileArgs =
-        [("rattr/analyser/file.py::parse_and_analyse_file", "config.arguments.target"),
-         ("rattr/analyser/file.py::parse_and_analyse_imports", "spec.origin"),
-         ("rattr/models/context/_context.py::expand_starred_imports", "starred.location.defined_in"),
-         ("rattr/models/context/_context.py::expand_starred_imports", "starred.origin")]
+        [("rattr/analyser/file.py::parse_and_analyse_file", "config.arguments.target", true),
+         ("rattr/analyser/file.py::parse_and_analyse_imports", "spec.origin", true),
+         ("rattr/models/context/_context.py::expand_starred_imports", "Path(starred.module_spec.origin)", true),
+         ("rattr/models/context/_context.py::expand_starred_imports", "starred.location.defined_in", false)]
     ∧ resolveSite = ResolveSite.searchDir
     ∧ Generated.C13.symlinkProbe.map (fun np => (np.1, np.2.map String.toList)) = probeModel := by decide
+
+/-! The probe of `py/tables/t_c13.py::path_name_probe` as the model sees it: `pa/`, `pa/py/` (a
+package named `py`), `pa/py/ma.py`, `pa/ma.py`, `pa/py.py`. -/
+private def nameProbeEnv : Env :=
+  { fs := [[["pa".toList, initPy], ["pa".toList, sPy, initPy], ["pa".toList, sPy, "ma.py".toList],
+            ["pa".toList, "ma.py".toList], ["pa".toList, "py.py".toList]]], stdlib := [] }
+private def nameProbeAt (rel : Path) : Dotted :=
+  (deriveModuleNameFromPath nameProbeEnv (rel.flatMap splitSeg)).getD ["-".toList]
+
+/-- The suffix rule of `derive_module_name_from_path` (c729543: ONE suffix is removed): the real
+function on a tree with a package named `py` = the model (`longestName`). -/
+theorem tieA_path_name_rule :
+    Generated.C13.pathNameProbe.map (fun np => (np.1, splitSeg np.2.toList))
+      = [("pa/__init__.py", nameProbeAt ["pa".toList, initPy]),
+         ("pa/py/__init__.py", nameProbeAt ["pa".toList, sPy, initPy]),
+         ("pa/py/ma.py", nameProbeAt ["pa".toList, sPy, "ma.py".toList]),
+         ("pa/ma.py", nameProbeAt ["pa".toList, "ma.py".toList])] := by decide
 
 /-! ### Generic lemmas on searches over `List.range` -/
 
@@ -897,9 +919,9 @@ theorem stripDots_append (X name : List Str) (hne : name ≠ []) (hmem : [] ∉ 
 /-- the path components of a dot-free name -/
 def DotFree (name : Dotted) : Prop := ∀ c, c ∈ name → '.' ∉ c
 
-/-- a name whose file is not itself called `py` / `__init__` (`a/py/__init__.py` ↦ `"a.py"` loses its
-last component to `removesuffix(".py")`) -/
-def PlainLast (name : Dotted) : Prop := name.getLast? ≠ some sPy ∧ name.getLast? ≠ some sInit
+/-- a name whose last component is not `__init__` (`pa.__init__` names the file `pa/__init__.py`, whose
+derived name is `pa`) -/
+def NotInitName (name : Dotted) : Prop := name.getLast? ≠ some sInit
 
 theorem filter_wellFormed (name : Dotted) (hw : WellFormed name) :
     name.filter (fun c => decide (c ≠ [])) = name := by
@@ -908,10 +930,36 @@ theorem filter_wellFormed (name : Dotted) (hw : WellFormed name) :
   simp only [ne_eq, decide_not, Bool.not_eq_eq_eq_not, Bool.not_true, decide_eq_false_iff_not]
   intro h0; subst h0; exact hw.2 ha
 
+theorem hasSuffix_append (X suf : List Str) (hX : X ≠ []) : hasSuffix suf (X ++ suf) = true := by
+  have hl : 0 < X.length := List.length_pos_iff.mpr hX
+  unfold hasSuffix
+  have h1 : (X ++ suf).length - suf.length = X.length := by simp
+  rw [h1, List.drop_left]
+  simp
+  exact hl
+
+theorem hasSuffix_two_false (a b : Str) (Y : List Str) (h : Y.getLast? ≠ some a) :
+    hasSuffix [a, b] (Y ++ [b]) = false := by
+  cases hc : hasSuffix [a, b] (Y ++ [b]) with
+  | false => rfl
+  | true =>
+    exfalso
+    unfold hasSuffix at hc
+    simp only [Bool.and_eq_true, decide_eq_true_eq, List.length_cons, List.length_nil, List.length_append] at hc
+    apply h
+    have := List.take_append_drop (Y.length + 1 - (0 + 1 + 1)) (Y ++ [b])
+    rw [hc.2] at this
+    have h2 : (List.take (Y.length + 1 - (0 + 1 + 1)) (Y ++ [b]) ++ [a]) ++ [b] = Y ++ [b] := by
+      rw [List.append_assoc]; exact this
+    have h3 := List.append_inj_left' h2 rfl
+    rw [← h3, List.getLast?_append]
+    simp
+
 /-- The longest module name read off a location `R ++ rel` (`rel` what `find_module_in_path` matched
-for `name`) is the components of `R` followed by `name`. -/
+for `name`) is the components of `R` followed by `name` — whatever the components are called (`py`
+included, since c729543). -/
 theorem longestName_location (R rel : Path) (name : Dotted)
-    (hw : WellFormed name) (hdot : DotFree name) (hpl : PlainLast name)
+    (hw : WellFormed name) (hdot : DotFree name) (hni : NotInitName name)
     (hshape : rel = name ++ [initPy] ∨ rel = withSuffixPy name) :
     longestName (pathComps (R ++ rel)) = dropEmptyFront (pathComps R) ++ name := by
   have hXne : ∀ (Z : List Str), pathComps R ++ Z ≠ [] := by
@@ -923,8 +971,8 @@ theorem longestName_location (R rel : Path) (name : Dotted)
   rcases hshape with h | h
   · subst h
     rw [List.flatMap_append, flatMap_splitSeg_dotfree name hdot, List.flatMap_cons, List.flatMap_nil, hinit,
-      List.append_nil, ← List.append_assoc, removeSuffix_append _ _ (hXne name),
-      removeSuffix_one_noop sPy _ (by rw [getLast?_append_ne _ _ hw.1]; exact hpl.1)]
+      List.append_nil, ← List.append_assoc, hasSuffix_append _ _ (hXne name), if_pos rfl,
+      removeSuffix_append _ _ (hXne name)]
     exact stripDots_append _ name hw.1 hw.2
   · subst h
     have hsplit : (withSuffixPy name).flatMap splitSeg = name ++ [sPy] := by
@@ -935,8 +983,8 @@ theorem longestName_location (R rel : Path) (name : Dotted)
       conv => rhs; rw [← List.dropLast_concat_getLast hw.1]
       simp
     rw [hsplit, ← List.append_assoc,
-      removeSuffix_two_noop sInit sPy _ (by rw [getLast?_append_ne _ _ hw.1]; exact hpl.2),
-      removeSuffix_append _ _ (hXne name)]
+      hasSuffix_two_false sInit sPy _ (by rw [getLast?_append_ne _ _ hw.1]; exact hni),
+      if_neg (by decide), removeSuffix_append _ _ (hXne name)]
     exact stripDots_append _ name hw.1 hw.2
 
 theorem locateFrom_mem (fs : FS) (k i : Nat) (name : Dotted) (p : Path)
@@ -972,7 +1020,7 @@ relative imports resolve against the package it was imported as (`C13_relative`)
 name is not classified stdlib, and no longer suffix of the resolved search directory's own path
 followed by `name` happens to exist as a module (the hypothesis of `C13_roundtrip`). -/
 theorem C13_located_roundtrip (env : Env) (M : Mounts) (hsite : M.site = .searchDir)
-    (name : Dotted) (hw : WellFormed name) (hdot : DotFree name) (hpl : PlainLast name)
+    (name : Dotted) (hw : WellFormed name) (hdot : DotFree name) (hni : NotInitName name)
     (hs : Dict.get? env.stdlib name = none)
     (i : Nat) (rel dir : Path)
     (hloc : (locate env.fs name).head? = some (i, rel)) (hdir : M.dirs[i]? = some dir)
@@ -998,7 +1046,7 @@ theorem C13_located_roundtrip (env : Env) (M : Mounts) (hsite : M.site = .search
   obtain ⟨files, _, _, hfind⟩ := locateFrom_mem env.fs 0 i name rel hmem
   obtain ⟨_, hshape⟩ := findModuleInPath_shape files name rel hfind
   rw [filter_wellFormed name hw] at hshape
-  have hL := longestName_location (M.rv dir) rel name hw hdot hpl hshape
+  have hL := longestName_location (M.rv dir) rel name hw hdot hni hshape
   have hrt := (C13_roundtrip env (pathComps (M.rv dir ++ rel)) _ name _ hL hw.1 hspec hno).1
   unfold followBase
   rw [hspec]
@@ -1084,17 +1132,17 @@ star-expansion (nested to any depth) — its root context is compiled, and every
 is resolved, while `Config().state.current_file` IS that file: the logged current file has the path
 and stem of the file whose statements are being registered; the `isInit` flag and the base handed to
 `derive_absolute_module_name` are those of that file. For every project, target and fuel. -/
-theorem walk_cur_is_file (P : Walk.Proj) (hlf : Walk.LinkFree P) (fuel : Nat) (tgt : Walk.File) :
+theorem walk_cur_is_file (P : Walk.Proj) (fuel : Nat) (tgt : Walk.File) :
     (∀ e, e ∈ (Walk.run P fuel tgt).st.events → e.cur.path = e.file.path ∧ e.cur.stem = e.file.stem)
     ∧ (∀ r, r ∈ (Walk.run P fuel tgt).st.trace →
         r.cur.path = r.file ∧ r.cur.stem = r.stem ∧ r.call.isInit = (r.stem == sInit) ∧ 1 ≤ r.call.level
         ∧ deriveModuleNameFromPath P.env (Walk.curComps P r.cur) = some r.call.base) := by
   have inv := Walk.run_inv P fuel tgt
-  refine ⟨fun e he => inv.evs e he hlf, ?_⟩
+  refine ⟨inv.evs, ?_⟩
   intro r hr
   have g := inv.recs r hr
-  refine ⟨g.file hlf, g.stem hlf, ?_, g.level, g.base⟩
-  rw [g.init, Walk.Cur.isInit, g.stem hlf]
+  refine ⟨g.file, g.stem, ?_, g.level, g.base⟩
+  rw [g.init, Walk.Cur.isInit, g.stem]
 
 /-- For EVERY project — symbolic links below the search root included — the base handed to
 `derive_absolute_module_name` is the module name derived from the current file's path, and the
@@ -1120,7 +1168,7 @@ relative import of every reached file whose derived module name is the file's ow
 (`walk_base_is_own_name`) resolves to exactly what `importlib.util.resolve_name` gives for THAT
 file's package; when Python refuses, the produced name has an empty first component and
 `find_module_name_and_spec` rejects it (the "unable to resolve relative import" branch). -/
-theorem walk_resolves_like_python (P : Walk.Proj) (hlf : Walk.LinkFree P) (fuel : Nat) (tgt : Walk.File)
+theorem walk_resolves_like_python (P : Walk.Proj) (fuel : Nat) (tgt : Walk.File)
     (hcf : ClashFree ((Walk.run P fuel tgt).st.trace.map (·.call)))
     (hs : isStdlib P.env [[]] = false)
     (r : Walk.Rec) (hr : r ∈ (Walk.run P fuel tgt).st.trace) (hown : r.call.base = ownName r) :
@@ -1128,7 +1176,7 @@ theorem walk_resolves_like_python (P : Walk.Proj) (hlf : Walk.LinkFree P) (fuel 
         r.result = x)
     ∧ (∀ e, Spec.pyResolveName (Spec.packageOf (ownName r) (r.stem == sInit)) r.call.level r.call.target = .error e →
         r.result.head? = some [] ∧ findModuleNameAndSpec P.env r.result = none) := by
-  obtain ⟨_, hrec⟩ := walk_cur_is_file P hlf fuel tgt
+  obtain ⟨_, hrec⟩ := walk_cur_is_file P fuel tgt
   obtain ⟨_, _, hinit, hl, hbase⟩ := hrec r hr
   have hres := walk_is_one_cached_run P fuel tgt
   rw [C13_run_noclash _ hcf, List.map_map] at hres
@@ -1165,7 +1213,7 @@ that statement's module (`m`, or `m.<name>`), where for a relative import `m` is
 `importlib.util.resolve_name` gives for the compiled file's package (an unresolvable name with an
 empty first component when Python refuses). Hypotheses: no module/package name clash in the walk, the
 round trip (`walk_base_is_own_name`) for the logged calls. -/
-theorem walk_symbols_resolve_like_python (P : Walk.Proj) (hlf : Walk.LinkFree P) (fuel : Nat) (tgt : Walk.File)
+theorem walk_symbols_resolve_like_python (P : Walk.Proj) (fuel : Nat) (tgt : Walk.File)
     (hcf : ClashFree ((Walk.run P fuel tgt).st.trace.map (·.call)))
     (hs : isStdlib P.env [[]] = false)
     (hrt : ∀ r, r ∈ (Walk.run P fuel tgt).st.trace → r.call.base = ownName r)
@@ -1190,7 +1238,7 @@ theorem walk_symbols_resolve_like_python (P : Walk.Proj) (hlf : Walk.LinkFree P)
       have hown : ownName r = fileName e.file := by
         unfold ownName fileName
         rw [hfile, hstem, Walk.File.path, List.dropLast_concat]
-      obtain ⟨hok, herr⟩ := walk_resolves_like_python P hlf fuel tgt hcf hs r hr (hrt r hr)
+      obtain ⟨hok, herr⟩ := walk_resolves_like_python P fuel tgt hcf hs r hr (hrt r hr)
       rw [hown, hstem, hlev, htg] at hok herr
       constructor
       · intro x hx
@@ -1281,16 +1329,26 @@ theorem C13_cex_nsdir_shadow :
 private def envPyPkg : Env :=
   { fs := [[[pa, initPy], [pa, sPy, initPy], [pa, sPy, "ma.py".toList], [pa, "ma.py".toList]]], stdlib := [] }
 
-/-- A package whose own name is `py`: `derive_module_name_from_path` strips `".__init__.py"` and then
-`".py"` — `pa/py/__init__.py` ↦ `"pa.py"` ↦ `"pa"`: the package file gets its PARENT's name, the
-round trip returns `pa/__init__.py`, and `from . import ma` inside it resolves to `pa.ma` (an
-existing, different module); Python: `pa.py.ma`. (The hypothesis `PlainLast` of
-`longestName_location`.) -/
-theorem C13_cex_package_named_py :
-    longestName [pa, sPy, sInit, sPy] = [pa]
+/-- A package whose own name is `py` (current code, c729543: one suffix is removed): `pa/py/__init__.py`
+gets the name `pa.py`, which locates that very file, and `from . import ma` inside it resolves to
+`pa.py.ma`, as Python resolves it. (For all names: `longestName_location`, `C13_located_roundtrip`.) -/
+theorem C13_package_named_py :
+    longestName [pa, sPy, sInit, sPy] = [pa, sPy]
     ∧ Spec.firstMatch envPyPkg.fs [pa, sPy] = some (0, [pa, sPy, initPy])
     ∧ (deriveModuleNameFromPath envPyPkg [pa, sPy, sInit, sPy]).bind (findModuleSpecFast envPyPkg)
-        = some { name := [pa], origin := some (.file 0 [pa, initPy]) }
+        = some { name := [pa, sPy], origin := some (.file 0 [pa, sPy, initPy]) }
+    ∧ deriveAbs true [pa, sPy] (some ["ma".toList]) 1 = [pa, sPy, "ma".toList]
+    ∧ Spec.pyResolveName (Spec.packageOf [pa, sPy] true) 1 (some ["ma".toList]) = .ok [pa, sPy, "ma".toList] := by
+  decide
+
+/-- The rule before c729543 (`.removesuffix(".__init__.py").removesuffix(".py")`, both in a row):
+`pa/py/__init__.py` ↦ `"pa.py"` ↦ `"pa"` — the package file got its PARENT's name, the round trip
+returned `pa/__init__.py`, and `from . import ma` inside it resolved to `pa.ma` (an existing, different
+module); Python: `pa.py.ma`. -/
+theorem C13_cex_package_named_py_before_c729543 :
+    longestNameBefore_c729543 [pa, sPy, sInit, sPy] = [pa]
+    ∧ ((iterModuleNamesLeft (longestNameBefore_c729543 [pa, sPy, sInit, sPy])).find? (moduleExists envPyPkg)).bind
+        (findModuleSpecFast envPyPkg) = some { name := [pa], origin := some (.file 0 [pa, initPy]) }
     ∧ deriveAbs true [pa] (some ["ma".toList]) 1 = [pa, "ma".toList]
     ∧ Spec.pyResolveName (Spec.packageOf [pa, sPy] true) 1 (some ["ma".toList]) = .ok [pa, sPy, "ma".toList] := by
   decide
@@ -1446,24 +1504,38 @@ private def finished (o : Walk.Out (Walk.Tab × Walk.Irs)) : Bool :=
   | .ok _ _ => true
   | _ => false
 
-/-- The star-expansion enters a star-imported file under `Import.origin`, the FULLY resolved path: a
-module of a package that is a symbolic link to a directory off the search path is analysed under a
-path from which no module name can be derived — its first relative import ends the run in
-`ValueError` — although the very same file, followed as an ordinary import, is analysed under the
-path as spelled (`pkg.api`, `.core` ↦ `pkg.core`, as Python resolves it). -/
-theorem C13_cex_star_symlink :
-    starBase lnkEnv (lnkM resolveSite) [pkg, sApi] = none
+/-- Current code (58a9012): the star-expansion enters a star-imported file under the origin as located
+— a module of a package that is a symbolic link to a directory off the search path gets its module
+name back (`pkg.api`), the walk finishes, and `.core` inside it resolves to `pkg.core`, as Python
+resolves it, whether the file is reached by `from pkg import *`-expansion or followed as an ordinary
+import. (For all projects: `walk_cur_is_file`, `walk_resolves_like_python` — no hypothesis on links.) -/
+theorem C13_star_symlink :
+    starBase lnkEnv (lnkM resolveSite) [pkg, sApi] = some [pkg, sApi]
     ∧ followBase lnkEnv (lnkM resolveSite) [pkg, sApi] = some [pkg, sApi]
     ∧ Spec.pyResolveName (Spec.packageOf [pkg, sApi] false) 1 (some [sCore]) = .ok [pkg, sCore]
-    ∧ crashedWith (Walk.run (lnkProj true) 30 (lnkTarget true)) "ValueError" = true
+    ∧ finished (Walk.run (lnkProj true) 30 (lnkTarget true)) = true
+    ∧ ((Walk.run (lnkProj true) 30 (lnkTarget true)).st.trace.all
+        (fun r => r.file != [pkg, "api.py".toList] || r.result == [pkg, sCore])) = true
+    ∧ ((Walk.run (lnkProj true) 30 (lnkTarget true)).st.trace.any (fun r => r.file == [pkg, "api.py".toList])) = true
     ∧ finished (Walk.run (lnkProj false) 30 (lnkTarget false)) = true
     ∧ ((Walk.run (lnkProj false) 30 (lnkTarget false)).st.trace.map (·.result)) = [[pkg, sCore]] := by
   decide
 
-/-- hence the path clauses of `walk_cur_is_file` need `Walk.LinkFree` -/
-theorem walk_cex_not_linkfree : ¬ Walk.LinkFree (lnkProj true) := by
-  intro hlf
-  have := hlf { dir := [pkg], stem := sApi, stmts := [] }
+/-- Before 58a9012 the star-expansion entered `Import.origin`, the FULLY resolved path: the same module
+was analysed under a path from which no module name can be derived — its first relative import ended
+the run in `ValueError` — although followed as an ordinary import it was analysed under the path as
+spelled. -/
+theorem C13_cex_star_symlink_before_58a9012 :
+    starBaseBefore_58a9012 lnkEnv (lnkM resolveSite) [pkg, sApi] = none
+    ∧ crashedWith (Walk.runBefore_58a9012 (lnkProj true) 30 (lnkTarget true)) "ValueError" = true
+    ∧ finished (Walk.runBefore_58a9012 (lnkProj false) 30 (lnkTarget false)) = true := by
+  decide
+
+/-- … which is why the invariant behind `walk_cur_is_file` asks the star-expansion to enter files as
+spelled (`Walk.Spelled`; true of `curOf true`, the current code) -/
+theorem walk_cex_not_spelled_before_58a9012 : ¬ Walk.Spelled (Walk.starCurResolved (lnkProj true)) := by
+  intro h
+  have := (h { dir := [pkg], stem := sApi, stmts := [] }).1
   revert this
   decide
 
@@ -1475,11 +1547,12 @@ example : findModuleInPathAbs (lnkM .searchDir).rv .searchDir [sProj] (lnkEnv.fs
     ∧ (∀ k, k < (dropEmptyFront (pathComps ((lnkM .searchDir).rv [sProj]))).length →
         findModuleSpecFast lnkEnv ((dropEmptyFront (pathComps ((lnkM .searchDir).rv [sProj])) ++ [pkg, sApi]).drop k) = none)
     ∧ (lnkProj false).rootComps = pathComps ((lnkM .searchDir).rv [sProj]) := by decide
-example : WellFormed [pkg, sApi] ∧ DotFree [pkg, sApi] ∧ PlainLast [pkg, sApi] :=
-  ⟨⟨by decide, by decide⟩, by intro c hc; revert c; decide, by decide, by decide⟩
+example : WellFormed [pkg, sApi] ∧ DotFree [pkg, sApi] ∧ NotInitName [pkg, sApi] :=
+  ⟨⟨by decide, by decide⟩, by intro c hc; revert c; decide, by unfold NotInitName; decide⟩
 -- `resolveLinks`: a chain and a link inside a linked directory
 example : resolveLinks [([pa], [pb]), ([pb], [x]), ([x, y], [m])] 8 [pa, y, fN] = [m, fN] := by decide
--- `Walk.LinkFree`: every project without links below its root
-example : Walk.LinkFree demo := Walk.linkFree_of_phys_nil demo rfl
+-- `longestName_location` with a package named `py`
+example : WellFormed [pa, sPy] ∧ DotFree [pa, sPy] ∧ NotInitName [pa, sPy] :=
+  ⟨⟨by decide, by decide⟩, by intro c hc; revert c; decide, by unfold NotInitName; decide⟩
 
 end Rattr.C13
